@@ -95,6 +95,18 @@ def run_generic(pid, profile, tier, seed, domains=None, extra_domains=(), n_quic
             for h in hs:
                 nontriv.add(json.dumps(h["steps"], sort_keys=True))
         ck.cov["directed_family_2"] = {"name": "disjunct_leq_history", "histories": nf, "domains": ddoms}
+        # third directed family: environments over different variable sets (6 variables, box -1..1)
+        wdoms = [d for d in doms if d in ("intervals", "dis_intervals", "congruences", "ric", "constant", "sign", "sign_constant", "bool_int",
+                                          "term_int", "aa_int", "pow_int", "vp_int", "rgn_int", "ref_intervals", "split_dbm", "split_oct")]
+        nf = 150 if tier == "quick" else 1500
+        for off in range(0, nf, 500):
+            hs = [hist.wide_join_history(ck.rng, 650000 + off + i, params=ck.rng.choice(PARAMS)) for i in range(min(500, nf - off))]
+            fails, knowns, _ = domops.run_batch(ck, "famwide%d" % off, hs, wdoms, box=1, univ=6, timeout=3000)
+            allf += fails
+            allk += knowns
+            for h in hs:
+                nontriv.add(json.dumps(h["steps"], sort_keys=True))
+        ck.cov["directed_family_3"] = {"name": "wide_join_history", "histories": nf, "domains": wdoms}
     ck.cov["distinct_nontrivial"] = len(nontriv)
     ck.cov["histories"] = n
     ck.cov["domains"] = doms
